@@ -816,9 +816,10 @@ impl fmt::Display for Type<'_> {
         if let Some(comments) = &tc.comments_after_type {
           type_str.push_str(comments.to_string().trim_end());
 
-          // The second of exactly two choices is written on the same line, where
-          // it would become part of the comment
-          if self.type_choices.len() == 2 && comments.any_non_newline() {
+          // Whatever is written next on the same line (the second of two
+          // choices, a closing delimiter, an operator) would become part of
+          // the comment
+          if comments.any_non_newline() {
             type_str.push('\n');
           }
         }
